@@ -1,14 +1,14 @@
 CONSTANTS
   DomainLists <- DL
-  NdotsSet = {0, 1, 2, 3}
+  NdotsSet = {0, 1, 2}
   NoSearchSet = {0, 1}
   ViaFileSet = {0, 1}
   AliasSet = {0, 1}
   EnvSet <- EnvNone
   Names = {"n1", "n1.test", "n1.a.b", "n1.test.", "n1."}
   Apis = {"search", "lsearch", "gai4", "gai0", "ghbn4"}
-  Outcomes = {"ok", "nodata", "nx", "servfail", "refused", "timeout", "formerr", "notimp"}
-  MaxOut = 4
+  Outcomes = {"ok", "nodata", "nx", "servfail", "refused", "timeout", "cnameonly"}
+  MaxOut = 3
 INIT GInit
 NEXT GNext
 INVARIANT Emit
